@@ -63,7 +63,7 @@ Definition FormatType (t : ty) : res bytes :=
       else if (p <? s)%Z then Err
       else if Z.eqb p 0 && Z.eqb s 0 then Ok (uns u (bs "decimal" ++ paren 10))
       else if Z.eqb s 0 then Ok (uns u (bs "decimal" ++ paren p))
-      else Ok (uns u (bs "decimal(" ++ itoa p ++ [44] ++ itoa s ++ [41]))
+      else Ok (uns u (bs "decimal" ++ [40] ++ itoa p ++ [44] ++ itoa s ++ [41]))
   | EnumType _ vs => Ok (bs "enum(" ++ formatValues vs ++ [41])
   | FloatType T u p =>
       let f := to_lower T in
